@@ -444,6 +444,8 @@ def run(chk):
     progress_rule(chk, repo)
     agree_rule(chk, repo)
     batch_rule(chk, repo)
+    linelen_rule(chk, repo)
+    peek_rule(chk, repo)
     # whether a compressed body is accepted as complete must not depend on where the reads fell: the decoder's member-boundary flag is
     # decided after the last input of a call was fed (rule shared with C09)
     from rules import C09
@@ -648,3 +650,59 @@ def batch_rule(chk, repo, rule="C03.batch"):
         else:
             chk.violation(rule, subst[0], "messages = [<400 _ErrInfo>]", "the messages the parser completed before the error, in front of the _ErrInfo",
                           "when a read holds valid requests followed by a malformed message, HttpParser.feed_data raises and its local list of completed messages is lost: the handler is never invoked and only the 400 is sent, while the same bytes in two reads get the requests handled (200) and then the 400 - which requests are produced depends on the segmentation")
+
+
+def linelen_rule(chk, repo, rule="C03.linelen"):
+    """Lax (LF-terminated) parsing: a complete line and a partial line are measured by the same rule.  While a line is incomplete its length is
+    counted with exactly one trailing CR discounted (it may be the first half of the line ending); the complete-line path must discount the
+    same - measuring the line after *all* trailing CRs were stripped accepts `<limit bytes>\\r\\r\\n` in one read and refuses it when the read
+    ends between the CRs and the LF."""
+    n = 0
+    for q in ("HttpParser.feed_data", "HttpPayloadParser.feed_data"):
+        fn = repo.func(MOD, q)
+        for r, cname in K.raises_in(fn.node):
+            if cname != "LineTooLong":
+                continue
+            for l in PC.units(PC.pc(r, raw=True)):
+                b = M.match_text("$A > $L", l.text) if l.pos else None
+                if b is None:
+                    continue
+                a = b["A"]
+                if not (isinstance(a, ast.Call) and norm.raw(a.func) == "len" and isinstance(a.args[0], ast.Name)):
+                    continue
+                v = a.args[0].id
+                # is `v` a line whose trailing CRs were all stripped before this test?
+                stripped = [x for x in ast.walk(fn.node) if isinstance(x, ast.Assign) and norm.raw(x.targets[0]) == v and norm.raw(x.value).replace('"', "'") == f"{v}.rstrip(b'\\r')" and x.lineno < r.lineno
+                            and PC._block_of(K.stmt_of(r).parent if isinstance(K.stmt_of(r).parent, ast.If) else K.stmt_of(r)) is not None]
+                same_blk = [x for x in stripped if any(x is y or any(x is z for z in ast.walk(y)) for y in (PC._block_of(K.stmt_of(r).parent) or []))]
+                if same_blk:
+                    n += 1
+                    chk.violation(rule, r, f"len({v}) > limit after {v}.rstrip(b'\\r')", f"len({v}) - {v}.endswith(b'\\r') > limit (measured before the strip)",
+                                  f"{q}: a complete lax line is measured after every trailing CR was stripped, a partial one with one CR discounted: a line of exactly the limit ended by `\\r\\r\\n` is accepted in one read and refused with LineTooLong when a read ends after the two CRs")
+    if not n:
+        chk.ok(rule, repo.func(MOD, "HttpParser.feed_data"), "complete lax lines are measured like partial ones (no length test on a line whose trailing CRs were all stripped first)")
+
+
+def peek_rule(chk, repo, rule="C03.peek"):
+    """An optional element is not consumed by peeking at what happens to be in the buffer: `if chunk.startswith(X): chunk = chunk[1:]` takes
+    the element only when it arrived in the same read as what precedes it; when the read ends just before it, the next call sees it in
+    another state (or at another offset) and treats it differently.  Accepted: a peek that also handles `not enough bytes yet`
+    (compares the length of what it looked at, or asks for more input), or that only computes an offset without consuming."""
+    pp = repo.func(MOD, "HttpPayloadParser.feed_data")
+    n = bad = 0
+    for a in [x for x in ast.walk(pp.node) if isinstance(x, ast.Assign) and norm.raw(x.targets[0]) == "chunk" and isinstance(x.value, ast.Subscript) and norm.raw(x.value.value) == "chunk"]:
+        lits = [l for c in PC.pc(a, raw=True) if len(c) == 1 for l in c]
+        peeks = [l for l in lits if l.pos and M.match_text("chunk.startswith($X)", l.text) is not None]
+        if not peeks:
+            continue
+        n += 1
+        guard = next((i for i in prog.enclosing(a, (ast.If,)) if any("startswith" in norm.raw(t_) for t_ in ast.walk(i.test))), None)
+        handles_short = guard is not None and (bool(guard.orelse) or any("len(" in norm.raw(t_) for t_ in ast.walk(guard.test)))
+        if handles_short:
+            chk.ok(rule, a, "the peek also covers the case that the bytes are not there yet")
+        else:
+            bad += 1
+            chk.violation(rule, a, K.short(a), "no consumption decided by a peek (or: handle the short read)",
+                          f"`{peeks[0].text}` decides whether one byte is consumed, and is only true when that byte arrived in the same read: `0\\r\\n` + `\\rX-T: 1` in one read is accepted (the CR is skipped), with a read boundary after `0\\r\\n` the same bytes are refused with InvalidHeader")
+    if not bad:
+        chk.ok(rule, pp, f"no optional element is consumed on the strength of a peek ({n} peek-guarded consumption(s), all handling the short read)")
